@@ -55,6 +55,28 @@ TraceBBSubsets == /\ IsEvent("bb_subsets")
             \cup IF_(r.k = "ok" /\ Len(subs) # 2^Cardinality(A), {<<"C18", "subsets-count", r.a, Len(subs)>>})
             \cup IF_(r.k = "ok" /\ \E i \in 1..(Len(subs)-1) : ~BBLess(subs[i], subs[i+1]), {<<"C18", "subsets-order", r.a>>}))
 
+\* Debug text, as code points: `{:#?}` draws the board (rank 8 first, files a..h, " X" / " ."), `{:?}` is BitBoard(0x................)
+RECURSIVE CatAll(_, _)
+CatAll(qs, i) == IF i > Len(qs) THEN <<>> ELSE qs[i] \o CatAll(qs, i + 1)
+BBPrettyCps(A) ==
+  LET row(k) == <<10, 32, 32, 32>> \o CatAll([f \in 1..8 |-> <<32, IF SqOf(f - 1, k) \in A THEN 88 ELSE 46>>], 1)
+  IN <<98, 105, 116, 98, 111, 97, 114, 100, 33, 32, 123>> \o CatAll([i \in 1..8 |-> row(8 - i)], 1) \o <<10, 125>>
+BBHexCps(A) ==
+  LET nib(i) == LET lo == 4 * (16 - i) IN B(lo \in A) + 2 * B(lo + 1 \in A) + 4 * B(lo + 2 \in A) + 8 * B(lo + 3 \in A)   \* i = 1 is the top nibble
+      dig(v) == IF v < 10 THEN 48 + v ELSE 55 + v
+  IN <<66, 105, 116, 66, 111, 97, 114, 100, 40, 48, 120>> \o [i \in 1..16 |-> dig(nib(i))] \o <<41>>
+TraceBBFmt == /\ IsEvent("bb_fmt")
+  /\ LET r == Recs[l]  A == S_(r.a)
+     IN Obs(IF_(r.k # "ok", {<<"EXT", "bitboard-debug-panicked", r.a>>})
+            \cup IF_(r.k = "ok" /\ r.pretty # BBPrettyCps(A), {<<"EXT", "bitboard-debug-board-text", r.a, r.pretty>>})
+            \cup IF_(r.k = "ok" /\ r.hex # BBHexCps(A), {<<"EXT", "bitboard-debug-hex-text", r.a, r.hex>>}))
+
+\* bitboard! { ... }: 64 marks, rank 8 first, files a..h; X (88) is a member
+TraceBBMacro == /\ IsEvent("bb_macro")
+  /\ LET r == Recs[l]  d == r.drawing
+         den == {SqOf((i - 1) % 8, 7 - ((i - 1) \div 8)) : i \in {i \in 1..Len(d) : d[i] = 88}}
+     IN Obs(IF_(Len(d) # 64 \/ S_(r.v) # den, {<<"EXT", "bitboard-macro", d, r.v>>}))
+
 TraceBBConst == /\ IsEvent("bb_const")
   /\ LET r == Recs[l]
          bad == IF_(S_(r.empty) # {}, {"EMPTY"}) \cup IF_(S_(r.full) # Sq, {"FULL"}) \cup IF_(S_(r.edges) # Edges, {"EDGES"})
@@ -137,7 +159,7 @@ TraceSl == /\ IsEvent("sl")
      IN Obs(IF_(bad # {}, {<<"C05", IF r.kind = 0 THEN "rook-attacks" ELSE "bishop-attacks", s, {r.cases[i] : i \in bad}>>}))
 
 Init == l = 1 /\ nviol = 0
-Next == \/ TraceBBOp \/ TraceBBIter \/ TraceBBSubsets \/ TraceBBConst \/ TracePM
+Next == \/ TraceBBOp \/ TraceBBIter \/ TraceBBSubsets \/ TraceBBFmt \/ TraceBBMacro \/ TraceBBConst \/ TracePM
         \/ TraceSq \/ TraceSqNew \/ TraceOffs \/ TraceFR \/ TraceTxt
         \/ TraceLeap \/ TraceBL \/ TracePQ \/ TraceSl
 Spec == Init /\ [][Next]_vars
